@@ -42,7 +42,7 @@ def rundir():
 
 
 def _java_cmd(xmx, extra_props=()):
-    return ["java", "-XX:+UseParallelGC", "-Xmx%s" % xmx] + ["-D" + p for p in extra_props] + ["-cp", JAR, "tlc2.TLC"]
+    return ["java", "-XX:+UseParallelGC", "-Xss128m", "-Xmx%s" % xmx] + ["-D" + p for p in extra_props] + ["-cp", JAR, "tlc2.TLC"]
 
 
 _RE_STATES = re.compile(r"(\d+) states generated, (\d+) distinct states found, (\d+) states left on queue")
@@ -111,7 +111,7 @@ def run(module, cfg, workers=16, timeout=600, simulate=None, depth=None, seed=No
                 r.emits.append(json.loads(json.loads(s)[2:]))
             except Exception:
                 raise TlcInfraError("cannot decode emit line: " + s[:200])
-        elif s.startswith("<<") or s.startswith('"'):
+        elif (s.startswith("<<") or s.startswith('"')) and not s.startswith('<<"@l"'):
             r.prints.append(s)
     if "Parsing or semantic analysis failed" in out or "***Parse Error***" in out or "Error: TLC threw an unexpected exception" in out \
             or "Error: Parsing" in out or "java.lang.OutOfMemoryError" in out:
@@ -200,20 +200,13 @@ def validate_trace(module, cfg, events, env=None, timeout=600, xmx="4g", constan
     try:
         e = dict(env or {})
         e["TRACE"] = tp
-        e["DIAG"] = "0"
+        e["DIAG"] = "1"      # the cursor is printed from a state constraint: the longest matched prefix is always known
         r = run(module, cfg, workers=1, timeout=timeout, env=e, coverage=False, xmx=xmx, deadlock=True, specdir=specdir)
         if r.ok:
             return True, len(events), r
-        if r.violation not in ("postcondition",):
-            # an invariant of the trace spec failed on a matched prefix: also a rejection; find the prefix
-            pass
-        e["DIAG"] = "1"
-        r2 = run(module, cfg, workers=1, timeout=timeout, env=e, coverage=False, xmx=xmx, deadlock=True, specdir=specdir)
         mx = 0
-        for s in r2.prints:
-            m = re.match(r'<<"@l", (\d+)>>', s)
-            if m:
-                mx = max(mx, int(m.group(1)))
+        for m in re.finditer(r'<<"@l", (\d+)>>', r.out):
+            mx = max(mx, int(m.group(1)))
         # cursor l points at the NEXT line to consume: l-1 lines were matched
         return False, max(0, mx - 1), r
     finally:
